@@ -29,4 +29,3 @@ var commonAssumptions = []string{
 	"go/packages, go/types (and go/ssa where used) model the Go source faithfully; no unsafe/reflect/cgo in the module (asserted by C14)",
 	"only the structural necessary conditions named in 'explanation' are decided; the behavioural remainder of the property is NOT decided by this check",
 }
-
